@@ -1,5 +1,10 @@
 use std::collections::hash_map::RandomState;
+#[cfg(not(prqlc_verif))]
 use std::collections::{BTreeSet, HashMap, HashSet};
+#[cfg(prqlc_verif)]
+use std::collections::BTreeSet;
+#[cfg(prqlc_verif)]
+use prqlc_parser::verif_hash::{HashMap, HashSet};
 use std::iter::zip;
 
 use enum_as_inner::EnumAsInner;
